@@ -24,7 +24,7 @@ DATA_BASIC = ['good', 'corrupt', 'http404']
 DATA_KINDS = ['good', 'corrupt', 'corrupt_trunc', 'corrupt_extra', 'corrupt_empty', 'http404',
               'http500', 'conn_error', 'midstream_error', 'good_keepalive']
 MD5_BASIC = ['correct', 'wrong', 'missing']
-MD5_KINDS = ['correct', 'wrong', 'missing', 'conn_error', 'empty', 'with_filename']
+MD5_KINDS = ['correct', 'correct', 'wrong', 'missing', 'conn_error', 'empty', 'with_filename']
 PRIORS = ['absent', 'valid', 'corrupt']
 HEAD_KINDS = ['fail', 'length', 'zero', 'wrong_length']
 
@@ -54,7 +54,7 @@ ASSUMPTIONS = [
 ]
 EXPECTED_PROBES = {'C20': ['retry_taken', 'retry_succeeds', 'persistent_mismatch', 'valid_skip',
                            'http_error', 'midstream_error', 'disk_full', 'corrupt_then_good',
-                           'second_call']}
+                           'second_call', 'bitrot_same_size_and_mtime']}
 
 
 # --------------------------------------------------------------------------------------------------
@@ -86,7 +86,11 @@ def gen(rng, prop, tier):
            'body_len': rng.choice([0, 1, 7, 100, 1024, 1025, 3000, 5000]) if rich else 3000,
            'body_seed': rng.randint(1, 1000)}
     ops = []
-    for _ in range(1 if rng.random() < 0.7 else rng.randint(2, 3)):
+    for _ in range(1 if rng.random() < 0.6 else rng.randint(2, 3)):
+        if ops and rng.random() < 0.5:
+            # disk fault between two calls: the target is damaged in place
+            ops.append({'op': 'bitrot', 'keep_mtime': rng.random() < 0.7,
+                        'keep_size': rng.random() < 0.8})
         data = [rng.choice(dk) for _ in range(rng.randint(1, 4))]
         if rng.random() < 0.35:
             # bias: corrupted first transfer followed by a good retry
@@ -105,6 +109,8 @@ def gen(rng, prop, tier):
 
 def simplify(plan):
     for j, op in enumerate(plan['ops']):
+        if op['op'] != 'download':
+            continue
         for key, simple in (('head', 'fail'), ('chunk', 1024), ('disk_fault', None)):
             if op[key] != simple:
                 p = copy.deepcopy(plan)
@@ -356,6 +362,22 @@ def execute(plan, ctx):
     pev.set_silent(False)
 
     for step, op in enumerate(plan['ops']):
+        if op['op'] == 'bitrot':
+            if path.exists() and path.stat().st_size > 0:
+                st = path.stat()
+                data = bytearray(path.read_bytes())
+                data[len(data) // 3] ^= 0x01
+                if not op.get('keep_size'):
+                    data += b'!'
+                path.write_bytes(bytes(data))
+                if op.get('keep_mtime'):
+                    os.utime(path, ns=(st.st_atime_ns, st.st_mtime_ns))
+                ctx.fault('bitrot_between_calls')
+                ctx.probe('bitrot_same_size_and_mtime' if op.get('keep_mtime')
+                          and op.get('keep_size') else 'bitrot')
+                ctx.op('bitrot')
+                ctx.ev(step, 'bitrot')
+            continue
         server.begin(op)
         prior_bytes = path.read_bytes() if path.exists() else None
         disk = DiskFull(op['disk_fault'])
